@@ -1,6 +1,7 @@
 import Tx3Proofs.C01
 import Tx3Proofs.C01Assets
 import Tx3Proofs.C01Lovelace
+import Tx3Proofs.C01MultiAsset
 #print axioms Tx3.Lang.eval_int
 #print axioms Tx3.Lang.lower_int
 #print axioms Tx3.Lang.C01_int_fragment
@@ -16,3 +17,5 @@ import Tx3Proofs.C01Lovelace
 #print axioms Tx3.arithSub_ok
 #print axioms Tx3.Lang.lower_lovelace
 #print axioms Tx3.Lang.C01_lovelace_fragment
+#print axioms Tx3.Lang.lower_multi
+#print axioms Tx3.Lang.C01_multi_asset_fragment
